@@ -62,3 +62,29 @@ class Stub:
             if isinstance(raw, staticmethod):
                 return raw.__func__
         return None
+
+
+def connectivity_premise(pack, pid):
+    """"not islanded" is a premise of the power-balance properties: the island sets System.connectivity computes must be the
+    components of the in-service branch graph (parallel circuits, self loops).  Bounded native stand-ins shared with C12; the
+    all-buses-isolated IndexError is recorded under C12 (F24) and not repeated here."""
+    from contracts import bounded_connectivity as BC
+    from contracts import bounded_islands_real as BIR
+    base = '%s/andes/system.py:System.connectivity/bounded:' % pid
+    r = native_guard(pack, base + 'runs', lambda: BC.run(5, 4))
+    if r is not None:
+        n, found = r
+        found = {k: w for k, w in found.items() if k != 'raises-or-hangs:all-buses-isolated'}
+        pack.bounded.append({'function': 'System.connectivity', 'kind': 'bounded (exhaustive enumeration, real body on a stub system)',
+                             'bound': '<=5 buses, <=4 branches incl. parallel and self-loops, all on/off patterns, 0-2 slacks',
+                             'cases': n, 'kinds_of_mismatch': sorted(found), 'counted_as_proved': False})
+        for kind, w in found.items():
+            pack.violation(base + kind, {'bounded': True, 'inputs': w, 'native_cmd': 'contracts/bounded_connectivity.py: System.connectivity(stub)'})
+    rname = base + 'islands-of-a-loaded-case-match-the-branch-graph'
+    r = native_guard(pack, rname, BIR.run)
+    if r is not None:
+        nr, badr = r
+        pack.bounded.append({'function': 'System.connectivity on a loaded case', 'kind': 'bounded native: ieee14_full + a double circuit, %d outage patterns' % nr,
+                             'counted_as_proved': False})
+        if badr:
+            pack.violation(rname, {'bounded': True, 'inputs': badr, 'native_cmd': 'contracts/bounded_islands_real.py'})
